@@ -286,3 +286,52 @@ Proof.
     { rewrite Z.mul_comm, Z.mul_pow2_bits by lia. apply Z.testbit_neg_r. lia. }
     congruence.
 Qed.
+
+(* ---------- reversing the order of k chunks of c bits (c = 1: reverse_bits, c = 8: swap_bytes) ---------- *)
+
+Fixpoint rev_chunks (c : Z) (k : nat) (x : Z) : Z :=
+  match k with
+  | O => 0
+  | S k' => (x mod 2 ^ c) * (2 ^ c) ^ Z.of_nat k' + rev_chunks c k' (x / 2 ^ c)
+  end.
+
+Lemma rev_bits_chunks k x : rev_bits k x = rev_chunks 1 k x.
+Proof.
+  revert x. induction k as [|k IH]; intros x; cbn [rev_bits rev_chunks]; [reflexivity|].
+  rewrite IH. reflexivity.
+Qed.
+
+Lemma rev_bytes_chunks k x : rev_bytes k x = rev_chunks 8 k x.
+Proof.
+  revert x. induction k as [|k IH]; intros x; cbn [rev_bytes rev_chunks]; [reflexivity|].
+  rewrite IH. reflexivity.
+Qed.
+
+Lemma rev_chunks_spec c k x : 0 < c ->
+  0 <= rev_chunks c k x < 2 ^ (c * Z.of_nat k) /\
+  forall i j, 0 <= i < Z.of_nat k -> 0 <= j < c ->
+    Z.testbit (rev_chunks c k x) (c * i + j) = Z.testbit x (c * (Z.of_nat k - 1 - i) + j).
+Proof.
+  intros Hc. revert x. induction k as [|k IH]; intros x.
+  - cbn [rev_chunks]. rewrite Z.mul_0_r. change (2 ^ 0) with 1. split; [lia|]. intros; lia.
+  - cbn [rev_chunks]. destruct (IH (x / 2 ^ c)) as [Hb Hbits].
+    rewrite <- Z.pow_mul_r by lia.
+    set (m := c * Z.of_nat k) in *. assert (Hm : 0 <= m) by (unfold m; nia).
+    pose proof (Z.mod_pos_bound x (2 ^ c) (pow2_pos c ltac:(lia))) as Hlo.
+    set (lo := x mod 2 ^ c) in *. set (R := rev_chunks c k (x / 2 ^ c)) in *.
+    replace (lo * 2 ^ m + R) with (R + 2 ^ m * lo) by ring.
+    split.
+    + replace (c * Z.of_nat (S k)) with (m + c) by (unfold m; lia).
+      rewrite pow2_split by lia. pose proof (pow2_pos m Hm). nia.
+    + intros i j Hi Hj. destruct (Z_lt_le_dec i (Z.of_nat k)) as [Hlt|Hge].
+      * assert (0 <= c * i + j < m).
+        { unfold m. assert (c * (i + 1) <= c * Z.of_nat k) by (apply Z.mul_le_mono_nonneg_l; lia).
+          assert (0 <= c * i) by (apply Z.mul_nonneg_nonneg; lia). lia. }
+        rewrite testbit_low by lia. unfold R. rewrite Hbits by lia.
+        assert (0 <= c * (Z.of_nat k - 1 - i)) by (apply Z.mul_nonneg_nonneg; lia).
+        rewrite Z.div_pow2_bits by lia. f_equal. lia.
+      * assert (i = Z.of_nat k) by lia. subst i.
+        rewrite testbit_high by (fold m; lia). fold m.
+        replace (m + j - m) with j by lia. unfold lo. rewrite Z.mod_pow2_bits_low by lia.
+        f_equal. lia.
+Qed.
